@@ -223,8 +223,10 @@ FIRE = [
     # ---- C05 / C03
     ("combinatorial-stride-alpha", "C03", [(COMBI, "            unique_int = (int_alpha * n_choose_beta) + int_beta", "            unique_int = (int_alpha * n_choose_alpha) + int_beta")], "K9.combinatorial-basis"),
     ("combinatorial-register-floor", "C03", [(COMBI, "    n = math.ceil(np.log2(n_choose_alpha * n_choose_beta))", "    n = math.floor(np.log2(n_choose_alpha * n_choose_beta))")], "K9.combinatorial-basis"),
-    ("hcb-exchange-from-pair-hopping", "C03", [(HCB, "            r2_coeff = 2*e_tei[i, j, j, i] - e_tei[i, j, i, j]", "            r2_coeff = 2*e_tei[i, j, j, i] - r1_coeff")], "K9.hcb-table"),
-    ("hcb-pair-energy-without-repulsion", "C03", [(HCB, "            coeff = 2*e_sei[i, i] + e_tei[i, i, i, i]", "            coeff = 2*e_sei[i, i]")], "K9.hcb-table"),
+    ("hcb-exchange-from-pair-hopping", "C03", [(HCB, "            r2_coeff = sum(g[i, j, j, i] - g[i, j, i, j] for i in (pu, pd) for j in (qu, qd))", "            r2_coeff = sum(g[i, j, j, i] for i in (pu, pd) for j in (qu, qd)) - r1_coeff")], "K9.hcb-table"),
+    ("hcb-pair-energy-without-repulsion", "C03", [(HCB, "        coeff = h[pu, pu] + h[pd, pd] + g[pu, pd, pd, pu] - g[pu, pd, pu, pd] - g[pd, pu, pd, pu] + g[pd, pu, pu, pd]", "        coeff = h[pu, pu] + h[pd, pd]")], "K9.hcb-table"),
+    ("hcb-pair-hopping-one-index-order", "C03", [(HCB, "            r1_coeff = g[pu, pd, qd, qu] - g[pd, pu, qd, qu] - g[pu, pd, qu, qd] + g[pd, pu, qu, qd]", "            r1_coeff = 4*g[pu, pd, qd, qu]")], "K9.hcb"),
+    ("hcb-odd-register-truncated", "C03", [(HCB, "    if h.shape[0] % 2:\n        # The operator stops at the spin-up orbital of the last spatial orbital.\n        h, g = np.pad(h, (0, 1)), np.pad(g, (0, 1))\n", "")], "K9.hcb-table"),
     ("fci-cas-bare-count", "C04", [(FCI, "                                                   (self.n_alpha, self.n_beta),\n                                                   ecore=self.ecore)", "                                                   self.nelec,\n                                                   ecore=self.ecore)")], "K6.electron-sector"),
     ("fci-alpha-count-floor", "C04", [(FCI, "        self.n_alpha = self.nelec//2 + self.spin//2 + (self.nelec % 2)", "        self.n_alpha = self.nelec//2 + self.spin//2")], "K6.electron-sector"),
     ("bk-wrapper-drops-register-size", "C03", [(BKF, "    qubit_operator = openfermion_bravyi_kitaev(fermion_operator, n_qubits=n_qubits)", "    qubit_operator = openfermion_bravyi_kitaev(fermion_operator)")], "K7.register-size"),
@@ -363,7 +365,7 @@ SILENT = [
     ("qubit-number-memoised", "C03", [(MT, "def get_qubit_number(mapping, n_spinorbitals):", "@functools.lru_cache(maxsize=None)\ndef get_qubit_number(mapping, n_spinorbitals):"), (MT, "from math import ceil\n", "from math import ceil\nimport functools\n")]),
     ("truncation-divisor-spelling", "C14", [(OPS, "        frob_factor = 2**(n_qubits / 2)", "        frob_factor = sqrt(2**n_qubits)")]),
     ("combinatorial-label-spelling", "C03", [(COMBI, "            unique_int = (int_alpha * n_choose_beta) + int_beta", "            unique_int = int_beta + n_choose_beta * int_alpha")]),
-    ("hcb-coefficient-spelling", "C03", [(HCB, "            r2_coeff = 2*e_tei[i, j, j, i] - e_tei[i, j, i, j]", "            direct, exchange = e_tei[i, j, j, i], e_tei[i, j, i, j]\n            r2_coeff = direct + direct - exchange")]),
+    ("hcb-coefficient-spelling", "C03", [(HCB, "            r2_coeff = sum(g[i, j, j, i] - g[i, j, i, j] for i in (pu, pd) for j in (qu, qd))", "            direct = sum(g[i, j, j, i] for i in (pu, pd) for j in (qu, qd))\n            exchange = g[pu, qu, pu, qu] + g[pd, qd, pd, qd] + g[pu, qd, pu, qd] + g[pd, qu, pd, qu]\n            r2_coeff = direct - exchange")]),
     ("fci-alpha-count-closed-form", "C04", [(FCI, "        self.n_alpha = self.nelec//2 + self.spin//2 + (self.nelec % 2)", "        self.n_alpha = (self.nelec + self.spin)//2")]),
     ("mi-increment-spelling", "C15", [(MIH, "                corr_energy = fragment_energies[frag_id] - self.e_mf\n                epsilons[frag_id] = corr_energy", "                epsilons[frag_id] = -self.e_mf + fragment_energies[frag_id]")]),
     ("oniom-sum-spelling", "C15", [(ONI, "        self.e_fragment = self.e_high + self.e_low", "        self.e_fragment = self.e_low + self.e_high")]),
